@@ -394,6 +394,29 @@ theorem autohint_sort_and_quantize_widths_terminates (o : Nat → Nat → Bool) 
   · exact ⟨s', h1, h2.1⟩
   · simp at h3
 
+/-! ### CFF charset iterator -/
+
+/-- **The range-seeking loop of the charset iterator terminates** within (remaining ranges + 1) body entries, for
+every gid and every range table — each turn takes one element off the slice iterator (also a range that does not
+move `end` past `gid`), and an exhausted iterator or an overflowing `end` returns through `?` -/
+theorem cff_charset_range_seek_terminates (gid : Nat) : ∀ (rs : List (Nat × Nat)) (e t : Nat),
+    (charsetSeek gid rs e t).1 ≤ t + rs.length + 1 := by
+  intro rs
+  induction rs with
+  | nil => intro e t; unfold charsetSeek; split <;> simp
+  | cons r rest ih =>
+    intro e t
+    obtain ⟨f, len⟩ := r
+    unfold charsetSeek
+    split
+    · split
+      · simp <;> omega
+      · have := ih (e + len) (t + 1); simp at this ⊢; omega
+    · simp <;> omega
+
+example : charsetSeek 10 [(5, 3), (9, 1), (20, 40)] 2 0 = (3, false) := by decide
+example : charsetSeek 10 [(5, 3)] 2 0 = (2, true) := by decide
+
 /-! ### From the entry states of the Rust
 
 Indices are offsets from `contour.first()`, so `contour.first()` is 0 and a contour (`first_ix ..= last_ix`) has
